@@ -101,6 +101,7 @@ pub struct CoreInner {
     pub steps: u64,
     pub hold_user: bool, // hold all user datagrams in flight (released by the scenario)
     pub epoch_ns: i64,   // start of the current scenario: logged times are relative to it
+    pub drift_ns: i64,   // every clock read of the code under test advances the virtual time by this much (0 = frozen within a step)
 }
 
 #[derive(Clone)]
@@ -185,6 +186,7 @@ impl Core {
             steps: 0,
             hold_user: false,
             epoch_ns: START_SEC * NS,
+            drift_ns: 0,
         })))
     }
     pub fn lock(&self) -> std::sync::MutexGuard<'_, CoreInner> {
@@ -215,7 +217,10 @@ pub fn time_of(ns: i64) -> Time {
 pub struct SimClock(Core);
 impl Clock for SimClock {
     fn now(&self) -> Time {
-        time_of(self.0.now_ns())
+        // a real clock moves between two reads inside one worker iteration; with drift_ns > 0 so does this one
+        let mut c = self.0.lock();
+        c.now_ns += c.drift_ns;
+        time_of(c.now_ns)
     }
 }
 
